@@ -17,6 +17,7 @@ import Csvq.Model.Analytic
 import Csvq.Model.AnalyticFull
 import Csvq.Model.AnalyticFlags
 import Csvq.Model.FormatFloat
+import Csvq.Model.ColumnIdent
 namespace Csvq.Drive.C17
 open Csvq Csvq.Proto Csvq.Analytic
 
@@ -296,9 +297,51 @@ def c17fl (fn : String) (args : List String) : String :=
     | _, _, _, _, _, _ => bad
   | _ => bad
 
+/-! ### the identity of result columns (Model/ColumnIdent.lean)
+
+   op line:  c17.ident <hex a> <hex b>      a = the identifier of an existing field (FormatFieldIdentifier of a parsed
+             expression), b = the identifier of the expression looked up
+   answer:   1 / 0 = Header.ContainsObject finds the field / does not; `G?` = the text `a` is not built from the pieces
+             of the grammar (a quote never closed, a quoted piece that is not the escaper's image of its content) -/
+
+def runeFold (x y : Char) : Bool := Uni.runeFoldEq x.toNat y.toNat
+
+def textOfHex (s : String) : Option (List Char) :=
+  (unhex s).map fun bs => (Uni.decodeRunes bs).map Char.ofNat
+
+/-- the pieces of a printed text, contents unescaped; `none` = outside the grammar -/
+def segsOf (a : List Char) : Option (List ColIdent.Seg) :=
+  match ColIdent.pieces (a.length + 1) a [] with
+  | none => none
+  | some ps => ps.mapM fun p =>
+    if p.1 = 0 then some (ColIdent.Seg.plain p.2)
+    else if p.1 = 1 then
+      let u := Esc.unescapeString p.2 '\''
+      if Esc.escapeString u = p.2 then some (ColIdent.Seg.str u) else none
+    else
+      let u := Esc.unescapeIdentifier p.2 '`'
+      if Esc.escapeIdentifier u = p.2 then some (ColIdent.Seg.ident u) else none
+
+def c17ident (args : List String) : String :=
+  match args with
+  | [ha, hb] =>
+    match textOfHex ha, textOfHex hb with
+    | some a, some b =>
+      match segsOf a with
+      | none => "G?"
+      | some segs =>
+        if ColIdent.render segs ≠ a then "G?"
+        else
+          let impl := ColIdent.equalFieldIdentifiers runeFold a b
+          let spec := ColIdent.sameColumn runeFold segs b
+          if impl ≠ spec then "spec-differs" else if impl then "1" else "0"
+    | _, _ => "bad-op"
+  | _ => "bad-op"
+
 def c17 (fn : String) (args : List String) : String :=
   let bad := "bad-op"
-  if fn.startsWith "fl:" then c17fl (fn.drop 3).toString args
+  if fn = "ident" then c17ident args
+  else if fn.startsWith "fl:" then c17fl (fn.drop 3).toString args
   else if fn.startsWith "full:" then c17full (fn.drop 5).toString args
   else if fn = "glistagg" then c17glistagg false args
   else if fn = "gjsonagg" then c17glistagg true args
